@@ -162,9 +162,35 @@ class PropertyCheck:
         for rep in self.reports:
             self.judge_report(rep, baseline)
         # bounded stand-ins
-        for b in self.spec.get("bounded", []):
-            self.run_bounded(b)
+        from concurrent.futures import ThreadPoolExecutor
+        todo = [b for b in self.spec.get("bounded", [])]
+        if todo:
+            with ThreadPoolExecutor(max_workers=8) as tp:
+                outs = list(tp.map(self._bounded_quiet, todo))
+            for b, out in zip(todo, outs):
+                if isinstance(out, Exception):
+                    self.checker_errors.append(f"bounded {b[1]}: {out!r}")
+                    continue
+                self.record_bounded(b[1], out)
+                for v in out["violations"]:
+                    self.report_violation(b[1], f"{b[1]}:bounded", v, None)
         return self.finish()
+
+    def _bounded_quiet(self, b):
+        try:
+            return self.bounded_job(b[0], b[1], record=False)
+        except Exception as e:
+            return e
+
+    def record_bounded(self, key, out):
+        hooks = sys.modules[self.owner[key]].CONCRETE[key]
+        self.bounded.append({"kind": "runtime contract check on the real function (bounded, never counted as proved)",
+                             "function": key, "bound": hooks.get("bound", ""), "evaluations": out["evaluations"],
+                             "distinct_nontrivial": out["distinct_nontrivial"], "outcomes": out["outcomes"],
+                             "violations": len(out["violations"]), "samples": out["samples"][:2],
+                             "budget_exhausted": out.get("budget_exhausted", False), "wall_s": round(out["wall_s"], 2)})
+        for p in out["problems"][:3]:
+            self.say(f"NOTE bounded {key}: {p}")
 
     def load_baseline(self):
         p = os.path.join(HERE, "baseline", "obligations.json")
